@@ -225,10 +225,17 @@ var markerRE = regexp.MustCompile(`vmk-(u\d+|anon)-\d+`)
 
 // newWorld starts a bed with the given users and seeds, through the connectors, per user: INBOX and the mailboxes
 // of the layout, each with counts[i] messages carrying the user's marker.
+// userIDs: nil lets the server make the user IDs up; otherwise the IDs the application chooses (Server.LoadUser).
+var userIDs []string
+
 func newWorld(t failer, creds []cred, perBox int) *world {
 	specs := make([]bed.UserSpec, len(creds))
 	for i, c := range creds {
 		specs[i] = bed.UserSpec{Name: c.User, Pass: c.Pass}
+
+		if i < len(userIDs) {
+			specs[i].ID = userIDs[i]
+		}
 	}
 
 	b, err := bed.Start(bed.Options{LoginJail: Jail, ClientTimeout: 30 * time.Second}, specs...)
